@@ -16,6 +16,8 @@ __CPROVER_requires(result->txt_records.n <= RVEC_MAX && __CPROVER_is_fresh(resul
 __CPROVER_requires(result->ptr_records.n <= RVEC_MAX && __CPROVER_is_fresh(result->ptr_records.p, result->ptr_records.n * sizeof(DnsRec))) \
 __CPROVER_requires(result->soa_records.n <= RVEC_MAX && __CPROVER_is_fresh(result->soa_records.p, result->soa_records.n * sizeof(DnsRec)))
 #define WITNESS_BOUND \
+__CPROVER_requires(G_empty == (result->answers.n == 0 && result->authority.n == 0 && result->additional.n == 0 && result->a_records.n == 0 && result->aaaa_records.n == 0 && result->srv_records.n == 0 && result->naptr_records.n == 0 && result->cname_records.n == 0 && result->mx_records.n == 0 && result->txt_records.n == 0 && result->ptr_records.n == 0 && result->soa_records.n == 0)) \
+__CPROVER_requires(G_single == (result->answers.n == 1 && result->authority.n == 0 && result->additional.n == 0 && result->a_records.n == 0 && result->aaaa_records.n == 0 && result->srv_records.n == 0 && result->naptr_records.n == 0 && result->cname_records.n == 0 && result->mx_records.n == 0 && result->txt_records.n == 0 && result->ptr_records.n == 0 && result->soa_records.n == 0)) \
 __CPROVER_requires(G_wv == ((GSEC == 0 && GI < result->answers.n) || (GSEC == 1 && GI < result->authority.n) || (GSEC == 2 && GI < result->additional.n) || (GSEC == 3 && GI < result->a_records.n) || (GSEC == 4 && GI < result->aaaa_records.n) || (GSEC == 5 && GI < result->srv_records.n) || (GSEC == 6 && GI < result->naptr_records.n) || (GSEC == 7 && GI < result->cname_records.n) || (GSEC == 8 && GI < result->mx_records.n) || (GSEC == 9 && GI < result->txt_records.n) || (GSEC == 10 && GI < result->ptr_records.n) || (GSEC == 11 && GI < result->soa_records.n))) \
 __CPROVER_requires((GSEC == 0 && GI < result->answers.n) ==> G_wttl == result->answers.p[GI].ttl) \
 __CPROVER_requires((GSEC == 1 && GI < result->authority.n) ==> G_wttl == result->authority.p[GI].ttl) \
@@ -42,9 +44,9 @@ WITNESS_BOUND
 __CPROVER_assigns()
 /* T1 */ __CPROVER_ensures(G_wv ==> __CPROVER_return_value <= G_wttl)
 /* T2 no record at all: the configured default */
-__CPROVER_ensures((result->answers.n == 0 && result->authority.n == 0 && result->additional.n == 0 && result->a_records.n == 0 && result->aaaa_records.n == 0 && result->srv_records.n == 0 && result->naptr_records.n == 0 && result->cname_records.n == 0 && result->mx_records.n == 0 && result->txt_records.n == 0 && result->ptr_records.n == 0 && result->soa_records.n == 0) ==> __CPROVER_return_value == (uint32_t)self->defaultTtlSeconds_)
+__CPROVER_ensures(G_empty ==> __CPROVER_return_value == (uint32_t)self->defaultTtlSeconds_)
 /* T3 a single answer record and nothing else: exactly its TTL (unless that is the 2^32-1 sentinel) */
-__CPROVER_ensures((result->answers.n == 1 && result->authority.n == 0 && result->additional.n == 0 && result->a_records.n == 0 && result->aaaa_records.n == 0 && result->srv_records.n == 0 && result->naptr_records.n == 0 && result->cname_records.n == 0 && result->mx_records.n == 0 && result->txt_records.n == 0 && result->ptr_records.n == 0 && result->soa_records.n == 0 && result->answers.p[0].ttl != 0xFFFFFFFFu) ==> __CPROVER_return_value == result->answers.p[0].ttl)
+__CPROVER_ensures((G_single && result->answers.p[0].ttl != 0xFFFFFFFFu) ==> __CPROVER_return_value == result->answers.p[0].ttl)
 ;
 
 void h_ttl(void)
@@ -144,10 +146,20 @@ WITNESS_BOUND
 __CPROVER_assigns(self->cache_->_cache)
 /* P1 */ __CPROVER_ensures((key == GKEY && G_wv && self->cache_->_cache.has) ==> self->cache_->_cache.e.expiration <= G_now + (int64_t)G_wttl)
 /* P3 a single answer record with a TTL > 0 and nothing else: stored, and it expires exactly TTL after now */
-__CPROVER_ensures((key == GKEY && result->answers.n == 1 && result->authority.n == 0 && result->additional.n == 0 && result->a_records.n == 0 && result->aaaa_records.n == 0 && result->srv_records.n == 0 && result->naptr_records.n == 0 && result->cname_records.n == 0 && result->mx_records.n == 0 && result->txt_records.n == 0 && result->ptr_records.n == 0 && result->soa_records.n == 0 && result->answers.p[0].ttl > 0 && result->answers.p[0].ttl != 0xFFFFFFFFu) ==>
-   (self->cache_->_cache.has && self->cache_->_cache.e.expiration == G_now + (int64_t)result->answers.p[0].ttl))
+#define PUT_SINGLE (key == GKEY && G_single && result->answers.p[0].ttl > 0 && result->answers.p[0].ttl != 0xFFFFFFFFu)
+/* P3a */ __CPROVER_ensures(PUT_SINGLE ==> self->cache_->_cache.has)
 /* P2 the entry holds this result */
 __CPROVER_ensures((key == GKEY && self->cache_->_cache.has) ==> self->cache_->_cache.e.value == G_result_id)
+;
+
+/* proof "put_exact": P3b alone (measured: P3a and P3b take 7 s each, together in one run > 300 s) */
+void put_core_exact_contract(DnsCache *self, uint64_t key, const DnsResult *result)
+__CPROVER_requires(IORA_TRUE && __CPROVER_is_fresh(self, sizeof(*self)) && SELF_OK && __CPROVER_is_fresh(self->cache_, sizeof(*self->cache_)))
+__CPROVER_requires(TIME_OK(G_now) && TTL_OK(self->cache_->_ttl))
+RESULT_FRESH
+WITNESS_BOUND
+__CPROVER_assigns(self->cache_->_cache)
+/* P3b */ __CPROVER_ensures(PUT_SINGLE ==> self->cache_->_cache.e.expiration == G_now + (int64_t)result->answers.p[0].ttl)
 ;
 
 void h_put(void)
@@ -167,7 +179,7 @@ void h_search(void)
   DnsResult res = { {&rec, 1}, {0,0},{0,0},{0,0},{0,0},{0,0},{0,0},{0,0},{0,0},{0,0},{0,0},{0,0} };
   ExpiringCache ec = { {false, {0, 0}}, 300, false };
   DnsCache dc = { 300, &ec };
-  IORA_TRUE = 1; GKEY = 7; G_now = 0; G_result_id = 42; GSEC = 0; GI = 0; G_wv = true; G_wttl = IN_TTL;
+  IORA_TRUE = 1; GKEY = 7; G_now = 0; G_result_id = 42; GSEC = 0; GI = 0; G_wv = true; G_wttl = IN_TTL; G_empty = false; G_single = true;
   DnsCache_put_core(&dc, 7, &res);
   G_now = IN_DT;
   uint64_t out = 0;
